@@ -565,7 +565,7 @@ open TTV.Describe TTV.Generated.C07 TTV.Spec.C07
 
 /-- the table extracted from the tree: no class of the model resolves `str()` to `Matcher.__str__`
 (re-checked against the tree on every run; fails to compile when a stock class loses its `__str__`) -/
-theorem table_ok : (strKinds.all fun p => p.2 != StrKind.inherited) = true
+theorem C07_str_table_ok : (strKinds.all fun p => p.2 != StrKind.inherited) = true
     ∧ (opaqueStr.all fun p => p.2) = true
     ∧ (["Equals", "NotEquals", "Is", "LessThan", "GreaterThan", "SameMembers", "StartsWith", "EndsWith", "Contains",
         "IsInstance", "_MatchesPredicateWithParams", "_Always", "_Never", "KeysEqual", "MatchesException", "Raises",
@@ -580,7 +580,7 @@ theorem strOf_ok {name : String} {kids : R} (h : kindOf name ≠ .inherited) (hk
   cases hkind : kindOf name <;> simp_all
 
 theorem leafStr_ok (l : Leaf) : leafStr l = none := by
-  have hop := table_ok.2.1
+  have hop := C07_str_table_ok.2.1
   cases l with
   | «opaque» id dom res =>
     simp only [leafStr]
